@@ -4,12 +4,18 @@
    objects - over pointers ranging over three objects that may coincide.  Each theorem: under EVERY
    pointer assignment the final memory is the initial memory with the destination(s) replaced by the
    PURE function of the operand's INITIAL value.  Modf: integ and frac may each be the receiver or nil.
-   The Context methods and BigInt are covered differently: the pure model (C01...C10) is a function of
-   operand values, and the implementation is run under all alias patterns {distinct, d==x, d==y, x==y,
-   d==x==y} in the arithmetic and alias streams and compared with it and with itself; BigInt aliasing is
-   register coincidence in C16's method-sequence theorem. *)
+   Context.Add, Sub, Abs, Neg, Round and setAsNaN (Imp/CtxOps.v, same transliteration discipline: the NaN
+   tests, d.Set, the late reads of the operand coefficients through the pointers upscale returns - after
+   d.Negative has been written -, the sign fix-ups on d, c.round(d, d) as one read-compute-write on d): under
+   EVERY assignment of d, x, y to objects the call returns the Condition of the pure model (Model/Context.v,
+   the same ctx_add / ctx_abs / ... that C01-C08 are about) applied to the operands' INITIAL values, and the
+   final memory is the initial memory with d replaced by the model's result.
+   The other Context methods and BigInt are covered differently: the pure model is a function of operand
+   values, and the implementation is run under all alias patterns {distinct, d==x, d==y, x==y, d==x==y} in the
+   arithmetic and alias streams and compared with it and with itself; BigInt aliasing is register coincidence
+   in C16's method-sequence theorem. *)
 From Coq Require Import ZArith Bool List.
-From Apd Require Import Generated.Consts Model.Base Model.NumDigits Imp.Mem Imp.Ops Imp.AliasProofs.
+From Apd Require Import Generated.Consts Model.Base Model.NumDigits Model.Decimal Model.Context Imp.Mem Imp.Ops Imp.AliasProofs Imp.CtxOps Imp.CtxProofs.
 Open Scope Z_scope.
 
 Theorem C05_set d x m : wf_mem m -> mem_eq (snd (run (set_imp d x) m)) (put m d (set_pure (get m x))).
@@ -26,6 +32,48 @@ Theorem C05_modf d integ frac m : wf_mem m -> distinct_opt integ frac ->
          (put_opt (put_opt m integ (fst (modf_pure (get m d)))) frac (snd (modf_pure (get m d)))).
 Proof. exact (modf_imp_pure d integ frac m). Qed.
 Print Assumptions C05_modf.
+
+(* Context methods: outcome_of r is the Condition (or the failure) the model's result r carries, mem_after m d r
+   is m with d replaced by the model's result (m itself when nothing is delivered) *)
+Theorem C05_context_add_sub est c sub d x y m : wf_mem m ->
+  let r := ctx_add est c (get m x) (get m y) sub in
+  fst (run (add_imp est c sub d x y) m) = outcome_of r /\
+  (forall r0, r = Ok r0 -> mem_eq (snd (run (add_imp est c sub d x y) m)) (mem_after m d r)).
+Proof. exact (add_imp_pure est c sub d x y m). Qed.
+Print Assumptions C05_context_add_sub.
+Theorem C05_context_abs est c d x m : wf_mem m ->
+  let r := ctx_abs est c (get m x) in
+  fst (run (ctx_abs_imp est c d x) m) = outcome_of r /\
+  (forall r0, r = Ok r0 -> mem_eq (snd (run (ctx_abs_imp est c d x) m)) (mem_after m d r)).
+Proof. exact (ctx_abs_imp_pure est c d x m). Qed.
+Print Assumptions C05_context_abs.
+Theorem C05_context_neg est c d x m : wf_mem m ->
+  let r := ctx_neg est c (get m x) in
+  fst (run (ctx_neg_imp est c d x) m) = outcome_of r /\
+  (forall r0, r = Ok r0 -> mem_eq (snd (run (ctx_neg_imp est c d x) m)) (mem_after m d r)).
+Proof. exact (ctx_neg_imp_pure est c d x m). Qed.
+Print Assumptions C05_context_neg.
+Theorem C05_context_round est c d x m : wf_mem m ->
+  let r := ctx_round_op est c (get m x) in
+  fst (run (ctx_round_imp est c d x) m) = outcome_of r /\
+  (forall r0, r = Ok r0 -> mem_eq (snd (run (ctx_round_imp est c d x) m)) (mem_after m d r)).
+Proof. exact (ctx_round_imp_pure est c d x m). Qed.
+Print Assumptions C05_context_round.
+(* setAsNaN, used by every Context method: d may be the (signaling) NaN operand itself *)
+Theorem C05_set_as_nan c d x y m : wf_mem m ->
+  should_set_as_nan (get m x) (option_map (get m) y) = true ->
+  let r := set_as_nan c (get m x) (option_map (get m) y) in
+  fst (run (set_as_nan_imp d x y) m) = outcome_of (Ok r) /\
+  mem_eq (snd (run (set_as_nan_imp d x y) m)) (mem_after m d (Ok r)).
+Proof. exact (set_as_nan_spec c d x y m). Qed.
+Print Assumptions C05_set_as_nan.
+
+(* x.Sub(x, x, x) in memory: d == x == y; 12.5 - 12.5 under RoundFloor is -0.0 *)
+Example C05_sub_all_aliased :
+  let m0 : mem := fun a => match a with (OA, FExp) => -1 | (OA, FCoeff) => 125 | _ => 0 end in
+  let c := mkCtx 5 9 (-9) c0 RFloor in
+  get (snd (run (add_imp go_est c true OA OA OA) m0)) OA = mkDec Finite true (-1) 0.
+Proof. vm_compute. reflexivity. Qed.
 
 (* x.Modf(x, &f) for 123.45: f = 0.45 although x has already become 123 (the order of writes matters) *)
 Example C05_modf_alias_example :
